@@ -313,6 +313,66 @@ def t_foreach(fx):
     return n
 
 
+def t_while(fx):
+    """`for i in a..b { body }`  ->  `let end = b; let mut i = a; while i < end { body; i += 1; }`
+    (index loops whose body neither `continue`s nor rebinds the counter; a is a literal)"""
+    n = 0
+    types = fx["types"]
+    bool_t = types.index("bool") if "bool" in types else None
+    unit = types.index("()")
+    for fn in fx["fns"].values():
+        for b in list(_walk(fn.get("body"))):
+            if b.get("k") != "block":
+                continue
+            out = []
+            items = list(b["stmts"])
+            tail_moved = False
+            if b.get("tail") is not None and b["tail"].get("k") == "for":
+                items.append(b["tail"])
+                tail_moved = True
+            for s in items:
+                ok = s.get("k") == "for" and s["pat"].get("k") == "bind" and not s["pat"].get("sub")
+                it = s.get("iter") if ok else None
+                while it is not None and it.get("k") == "blk" and not it["b"]["stmts"] and it["b"]["tail"] is not None:
+                    it = it["b"]["tail"]
+                ok = ok and it is not None and it.get("k") == "struct" and it.get("path") == "std::ops::Range"
+                if ok:
+                    fs = dict((a_, b_) for a_, b_ in it["fs"])
+                    st = fs["start"]
+                    ok = st.get("k") == "lit" and not any(y.get("k") == "continue" for y in _walk(s["body"])) and s["body"].get("k") == "blk"
+                if not ok:
+                    out.append(s)
+                    continue
+                n += 1
+                ih = s["pat"]["hid"]
+                it_ty = s["pat"].get("t")
+                eh = 7000000 + n
+                line = s.get("line")
+                loc = lambda: {"k": "local", "name": s["pat"]["name"], "hid": ih, "t": it_ty, "line": line}
+                endl = lambda: {"k": "local", "name": "__end%d" % n, "hid": eh, "t": it_ty, "line": line}
+                body = s["body"]["b"]
+                stmts = list(body["stmts"]) + ([body["tail"]] if body.get("tail") is not None else [])
+                inc = {"k": "assignop", "op": "AddAssign", "l": loc(), "r": {"k": "lit", "v": "1", "t": it_ty, "line": line}, "t": unit, "line": line}
+                lid = s.get("loop_id")
+                th = {"k": "blk", "b": {"k": "block", "stmts": stmts + [inc], "tail": None}, "t": unit, "line": line}
+                el = {"k": "blk", "b": {"k": "block", "stmts": [{"k": "break", "label": lid, "v": None, "mac": "Desugaring(WhileLoop)", "line": line}], "tail": None},
+                      "mac": "Desugaring(WhileLoop)", "t": unit, "line": line}
+                cond = {"k": "bin", "op": "Lt", "l": loc(), "r": endl(), "t": bool_t, "line": line}
+                lp = {"k": "loop", "src": "While", "loop_id": lid, "line": line, "t": unit,
+                      "body": {"k": "block", "stmts": [], "tail": {"k": "if", "c": cond, "th": th, "el": el, "mac": "Desugaring(WhileLoop)", "t": unit, "line": line}}}
+                if "id" in s:
+                    lp["id"] = s["id"]
+                pat_i = dict(s["pat"])
+                pat_i["mode"] = "BindingMode(No, Mut)"
+                out.append({"k": "let", "pat": {"k": "bind", "name": "__end%d" % n, "hid": eh, "mode": "BindingMode(No, Not)", "t": it_ty}, "init": fs["end"], "els": None, "line": line})
+                out.append({"k": "let", "pat": pat_i, "init": st, "els": None, "line": line})
+                out.append(lp)
+            b["stmts"] = out
+            if tail_moved:
+                b["tail"] = None
+    return n
+
+
 def t_iflet(fx):
     """`match e { P => A, _ / None => B }` (two arms, no guards, second arm binds nothing)  ->  `if let P = e { A } else { B }`"""
     n = 0
@@ -339,12 +399,17 @@ def t_iflet(fx):
     return n
 
 
-T = {"alpha": t_alpha, "noise": t_noise, "commute": t_commute, "flip": t_flip, "arms": t_arms, "letify": t_letify, "unlet": t_unlet, "foreach": t_foreach, "iflet": t_iflet}
+T = {"alpha": t_alpha, "noise": t_noise, "commute": t_commute, "flip": t_flip, "arms": t_arms, "letify": t_letify, "unlet": t_unlet, "foreach": t_foreach, "iflet": t_iflet, "while": t_while}
 
 
 def run(which, repo="/repo", quiet=False, props=None):
     fx = copy.deepcopy(F.get_facts(repo, "dev", quiet=True))
     counts = {w: T[w](fx) for w in which}
+    # the transformed program goes through the normalisation pre-passes again, as a program written that way would
+    from . import desugar as _ds
+    _ds.run(fx)
+    if "alpha" in which:
+        names.normalise(fx)
     known = {k["key"] for k in core.load_known().get("known", [])}
     bad = []
     for prop in (props or rules.PROPS):
